@@ -128,6 +128,11 @@ CommonFails(r) ==
   Cl(AuditOK(r.post), "Audit") \cup Cl(ApiOK(r.post), "ApiLinks") \cup Cl(ApiIlisOK(r.post), "ApiIlis") \cup Cl(StructOK(r.post), "Structure")
   \cup Cl("inputs_unchanged" \in DOMAIN r => r.inputs_unchanged, "InputsUnchanged")
   \cup Cl("tmp_left" \in DOMAIN r => r.tmp_left = <<>>, "NoTemporaryFilesLeft")
+  \* a step of a behaviour generated by TLC from MC_StoreWalk: the code arrives
+  \* where the specification said it would
+  \cup Cl("exp" \in DOMAIN r =>
+            (r.exp.inst = r.post.inst /\ ((r.exp.outcome \in {"ok", "skip"}) <=> r.ret = "ok")),
+          "SpecBehaviourReplayed")
 
 \* known deviation: tag / pronunciation rows of a removed extension stay
 DevExtensionExtrasSurviveRemoval(r) ==
